@@ -237,12 +237,94 @@ def unit_values():
     return out
 
 
+# what the S-DAC-GT and add-on writers print and the .json entry that holds it (hand-reviewed against
+# OutputsS_DAC_GT.py / OutputsAddOns.py): label -> (.json key, factor), profile column -> .json key (row of year y = value[y-1])
+SECTION_SPEC = {
+    'sdacgteconomics': ({'LCOD using grid-based electricity only': ('Total LCOD 100% electric', 1), 'LCOD using natural gas only': ('Total LCOD natural gas', 1),
+                         'LCOD using geothermal energy only': ('Total LCOD S-DAC-GT', 1),
+                         'CO2 Intensity using grid-based electricity only': ('Total CO2 Intensity 100% electric', 100),
+                         'CO2 Intensity using natural gas only': ('Total CO2 Intensity natural gas', 100),
+                         'CO2 Intensity using geothermal energy only': ('Total CO2 Intensity S-DAC-GT', 100),
+                         'Total Tonnes of CO2 Captured': ('Total Tonnes of CO2 extracted', 1)},
+                        R.SDAC, {1: 'Tonnes per Year CO2 extracted', 2: 'Running Carbon Capture', 3: 'Total Cost per Year', 4: 'Running Total Cost',
+                                 5: 'Running cost per Tonne of capture'}),
+    'addeconomics': ({'Adjusted Project CAPEX (after incentives, grants, AddOns, etc)': ('Adjusted CAPEX', 1),
+                      'Adjusted Project OPEX (after incentives, grants, AddOns, etc)': ('Adjusted OPEX', 1),
+                      'Total Add-on CAPEX': ('AddOn CAPEX Total', 1), 'Total Add-on OPEX': ('AddOn OPEX Total Per Year', 1),
+                      'Total Add-on Net Elec': ('AddOn Electricity Gained Total Per Year', 1), 'Total Add-on Net Heat': ('AddOn Heat Gained Total Per Year', 1),
+                      'Total Add-on Profit': ('AddOn Profit Gained Total Per Year', 1), 'AddOns Payback Period': ('AddOn Payback Period', 1)},
+                     R.EXT, {2: 'Annual Revenue Generated from Electricity Sales', 4: 'Annual Revenue Generated from Heat Sales',
+                             5: 'Annual Revenue Generated from AddOns', 6: 'Annual AddOn Cash Flow', 7: 'Cumulative AddOn Cash Flow',
+                             8: 'Annual Project Cash Flow', 9: 'Cumulative Project Cash Flow'}),
+}
+
+
 def json_oracle(it, uv):
-    """the .json next to the report carries the quantity each equally-named report line prints.
-    -> (violations decided here, [(key, what, token, quantity)] figures to be compared by Coq's json_agrees)"""
+    """the .json next to the report carries (i) the quantity each equally-named report line prints and (ii) every quantity of
+    the S-DAC-GT / add-on sections.  -> (violations decided here, [(key, what, token, quantity)] for Coq's json_agrees)"""
     out, cmp = [], []
     if not it.get('json'):
         return out, cmp
+    js = json.loads(it['json'])
+    by = {}
+    for k, v in js.items():
+        if isinstance(v, dict):
+            for nm in (k, v.get('Name'), v.get('display_name')):
+                if nm:
+                    by.setdefault(nm, v)
+    snap = it.get('snap') or {}
+    outs = lambda comps: [d for c in comps for d in (snap.get(c) or {}).values() if isinstance(d, dict) and d.get('k') == 'out']
+    over = {d.get('name'): 'addons' for d in outs(('addeconomics',))}
+    over.update({d.get('name'): 'sdacgt' for d in outs(('sdacgteconomics',))})        # merged last
+    base = {nm: d['name'] for d in outs(('reserv', 'wellbores', 'surfaceplant', 'economics')) for nm in (d['name'], d.get('display_name')) if nm}
+    sl = R.scalar_lines(it['text'])
+    for sec, label, toks, ind, val in sl:
+        if label in base and base[label] not in js:
+            out.append((f'json:missing:{label}', f'the report prints "{label}" but the .json has no entry "{base[label]}"', ' '.join(toks), None))
+        p = by.get(label)
+        if p is None or not toks or isinstance(p.get('value'), (list, dict, str, bool)) or p.get('value') is None:
+            continue
+        jv = p['value']
+        if label == 'Investment Tax Credit':
+            jv = -jv                       # printed with the opposite sign by design of the report
+        cls = 'overwritten-by-' + over[p.get('Name')] if label in base and p.get('Name') in over else 'value'
+        what = (f'the .json entry "{p.get("Name")}" is not the quantity the report prints as "{label}"'
+                + (f' (the {cls[15:]} economics object\'s entry of that name overwrites the base economics\' one)' if cls != 'value' else ''))
+        if toks[0] == 'N/A':
+            if jv > 0:
+                out.append((f'json:{cls}:{label}', what, 'N/A', jv))
+        elif jv == jv and abs(jv) != float('inf'):
+            cmp.append((f'json:{cls}:{label}', what, toks[0].replace(',', ''), jv))
+        if len(toks) >= 2 and ' '.join(toks[1:]) not in uv.get(p.get('CurrentUnits'), set()) | uv.get(p.get('PreferredUnits'), set()):
+            out.append((f'json:{cls if cls != "value" else "unit"}:{label}', f'the .json entry "{p.get("Name")}" has another unit than the report line "{label}"',
+                        ' '.join(toks[1:]), [p.get('CurrentUnits'), p.get('PreferredUnits')]))
+    # every figure of the S-DAC-GT / add-on sections is in the .json
+    for comp, (scalars, table, columns) in SECTION_SPEC.items():
+        if comp not in snap:
+            continue
+        for sec, label, toks, ind, val in sl:
+            if label in scalars and toks and toks[0] != 'N/A':
+                key, factor = scalars[label]
+                if key not in js:
+                    out.append((f'json:missing:{key}', f'the report prints "{label}" but the .json has no entry "{key}"', ' '.join(toks), None))
+                elif isinstance(js[key].get('value'), (int, float)):
+                    cmp.append((f'json:section:{key}', f'the .json entry "{key}" is not the quantity the report prints as "{label}"',
+                                toks[0].replace(',', ''), js[key]['value'] * factor))
+        tb = R.expected_table(it['text'], table)
+        for col, key in columns.items() if tb and tb[1] else ():
+            if key not in js:
+                out.append((f'json:missing:{key}', f'the report prints column {col} of the {table} but the .json has no entry "{key}"', None, None))
+                continue
+            arr, block = js[key].get('value'), R.table_block(it['text'], table)
+            rows = [l.replace('|', ' ').split() for l in block[3:] if l.strip()]
+            for r in rows:
+                if len(r) > col and re.fullmatch(r'\d+', r[0]) and isinstance(arr, list) and 0 < int(r[0]) <= len(arr):
+                    cmp.append((f'json:section:{key}', f'the .json entry "{key}"[{int(r[0]) - 1}] is not the figure printed in year {r[0]}, column {col} of the {table}',
+                                r[col].replace(',', ''), arr[int(r[0]) - 1]))
+                else:
+                    out.append((f'json:section:{key}', f'year {r[0] if r else "?"} of the {table} has no counterpart in the .json entry "{key}"', r[:col + 1], None))
+                    break
+    return out, cmp
     js = json.loads(it['json'])
     by = {}
     for k, v in js.items():
